@@ -174,6 +174,56 @@ def build(active_known=frozenset()):
     pack.extra.append(bytes_bounded)
     pack.extra.append(regex_bounded(active_known))
 
+    # ------------------------------------------------------------------ 1c. numbers: what the printers write, the reader's patterns accept
+    # The printers of numbers are Python's own (repr / str, documented formats - trusted, stated below as regular languages); the reader
+    # decides by its live compiled patterns which branch of _read_num a token takes.  Each lemma is a language inclusion, decided by the
+    # solver's theory of regular expressions: every text of the printer's language is matched by the pattern of the branch that rebuilds
+    # the same type (and by no pattern tried before it).  The patterns are translated from the live objects on every run (pyvc/rex.py).
+    from pyvc import rex
+
+    def number_language_lemmas():
+        D, NZ, L = rex.digits, rex.nonzero_digit, rex.lit
+        sign = z3.Option(L("-"))
+        natural = z3.Union(L("0"), z3.Concat(NZ(), rex.digits(0)))                      # 0 | [1-9][0-9]*
+        exp2 = z3.Concat(z3.Union(L("+"), L("-")), rex.digits(2))                       # e+16, e-07: sign and at least two digits
+        L_int = z3.Concat(sign, natural)
+        L_float_pos = z3.Concat(sign, natural, L("."), D())                              # repr(float), positional: 0.001, 1.5, 123456789.125
+        L_float_exp = z3.Concat(sign, NZ(), z3.Option(z3.Concat(L("."), D())), L("e"), exp2)  # repr(float), exponent form: 1e+16, 1.5e-07
+        L_imag = z3.Concat(sign, z3.Union(z3.Concat(natural, z3.Option(z3.Concat(L("."), D()))),
+                                          z3.Concat(NZ(), z3.Option(z3.Concat(L("."), D())), L("E"), exp2)), L("J"))   # repr(complex(0, y)).upper()
+        L_ratio = z3.Concat(sign, natural, L("/"), natural)
+        L_decimal = z3.Concat(sign, natural, z3.Option(z3.Concat(L("."), D())), z3.Option(z3.Concat(L("E"), z3.Option(z3.Union(L("+"), L("-"))), D())), L("M"))  # str(Decimal) + "M"
+        P = {n_: rex.to_z3(getattr(rd, n_)) for n_ in ("integer_literal", "float_literal", "octal_literal", "hex_literal", "ratio_literal", "scientific_notation_literal",
+                                                          "arbitrary_base_literal", "complex_literal")}
+        order = ["integer_literal", "float_literal", "octal_literal", "hex_literal", "ratio_literal", "scientific_notation_literal", "arbitrary_base_literal", "complex_literal"]
+        t = z3.String("printed_number")
+
+        def first_match_is(lang, wanted):
+            # some wanted pattern matches, and no pattern tried before the first wanted one does
+            first = min(order.index(w) for w in wanted)
+            return ([z3.InRe(t, lang)], z3.And(z3.Or(*[z3.InRe(t, P[w]) for w in wanted]), *[z3.Not(z3.InRe(t, P[o])) for o in order[:first]]))
+
+        return {
+            "an integer's text (-?(0|[1-9][0-9]*)) is read by the integer branch": lambda: first_match_is(L_int, ["integer_literal"]),
+            "a finite float printed positionally (1.5, 0.001) is read by the float branch, not as an integer": lambda: first_match_is(L_float_pos, ["float_literal"]),
+            "a finite float printed with an exponent (1e+16, 1.5e-07) is read by the scientific-notation branch": lambda: first_match_is(L_float_exp, ["scientific_notation_literal"]),
+            "a ratio's text is read by the ratio branch": lambda: first_match_is(L_ratio, ["ratio_literal"]),
+            "a decimal's text with the M suffix (1.50M, 1E+5M, 1E-7M) is read by one of the two branches that build a decimal": lambda: first_match_is(L_decimal, ["float_literal", "scientific_notation_literal"]),
+            "a finite imaginary number's text (2.5J, 1E+16J, 1.5E-07J) is read by the complex branch": lambda: first_match_is(L_imag, ["complex_literal"]),
+        }
+
+    def number_replay(m):
+        try:
+            text = m.str(z3.String("printed_number"))
+        except Exception:  # noqa: BLE001
+            text = ""
+        return NUMTEXT_REPLAY.replace("@TEXT@", repr(text))
+
+    for nm_, fn_ in number_language_lemmas().items():
+        pack.lemma(nm_, fn_, replay=number_replay)
+    pack.trust("the printed form of numbers is Python's: repr(int) = -?(0|[1-9][0-9]*); repr(float) for finite values = the shortest round-tripping decimal, positional d+.d+ or d[.d+]e[+-]dd+; "
+               "str(Decimal) = digits[.digits][E[+-]digits]; repr(complex(0, y)) = repr-style y without a trailing .0, followed by j")
+
     # ------------------------------------------------------------------ 2. the tables (finite decision on the live objects)
     pack.extra.append(table_check(active_known))
 
@@ -722,6 +772,44 @@ for p in patterns:
     if not (isinstance(back, list) and len(back) == 1 and isinstance(back[0], re.Pattern) and back[0] == pat):
         bad.append("%r prints as %s, which reads as %r" % (p, text, [getattr(b, "pattern", b) for b in back] if isinstance(back, list) else back))
 print("cases", cases)
+for line in bad[:8]:
+    print(line)
+print("REPRODUCED" if bad else "not reproduced")
+'''
+
+
+NUMTEXT_REPLAY = r'''
+import decimal, fractions
+from basilisp.lang import reader
+from basilisp.lang.obj import lrepr
+text = @TEXT@
+values = [0, -7, 10**30, 1.5, -0.001, 1e16, 1e22, -1.5e300, 5e-324, 1.5e-07, 123456789.125, fractions.Fraction(-7, 3), decimal.Decimal("1.50"), decimal.Decimal("1E+5"), decimal.Decimal("1E-7"),
+          complex(0, 1), complex(0, 2.5), complex(0, -3), complex(0, 1e16), complex(0, 1.5e-7), complex(0, 1e22)]
+def parse(t):
+    "the value the solver's text denotes, when it is the printed form of one"
+    try:
+        if t.endswith("J"):
+            return complex(t[:-1] + "j")
+        if t.endswith("M"):
+            return decimal.Decimal(t[:-1])
+        if "/" in t:
+            return fractions.Fraction(t)
+        return float(t) if any(c in t for c in ".eE") else int(t)
+    except Exception:
+        return None
+if text:
+    v = parse(text)
+    if v is not None:
+        values.insert(0, v)
+bad = []
+for v in values:
+    t = lrepr(v, print_dup=True)
+    try:
+        back = list(reader.read_str(t))
+    except Exception as e:
+        back = "%s: %s" % (type(e).__name__, e)
+    if not (isinstance(back, list) and len(back) == 1 and type(back[0]) is type(v) and back[0] == v):
+        bad.append("%r prints as %s, which reads as %r" % (v, t, back))
 for line in bad[:8]:
     print(line)
 print("REPRODUCED" if bad else "not reproduced")
